@@ -275,6 +275,9 @@ func buildConfig(c CaseCfg, cfgRec *Recorder) *eval.Config {
 			cc.VariableKeyMap[fmt.Sprintf("pad.var.%d", i)] = next + eval.VariableKey(i)
 			cc.ConstantMap[fmt.Sprintf("PAD_CONST_%d", i)] = int64(i)
 			cc.OperatorMap[fmt.Sprintf("pad_op_%d", i)] = padOperator
+			if len(c.Costs) > 0 {
+				cc.CostsMap[fmt.Sprintf("pad.var.%d", i)] = float64(i % 7)
+			}
 		}
 	}
 	names := make([]string, 0, len(c.Custom))
